@@ -72,7 +72,7 @@ impl Future for VTimer {
   }
 }
 
-fn new_vtimer(dur: Duration) -> BoxFuture<'static, ()> {
+pub fn new_vtimer(dur: Duration) -> BoxFuture<'static, ()> {
   let clk = clock();
   let mut c = clk.lock().unwrap();
   c.requested.push(dur);
@@ -84,6 +84,13 @@ fn new_vtimer(dur: Duration) -> BoxFuture<'static, ()> {
     c.timers.push(TimerEnt { due, seq, slot: slot.clone() });
   }
   Box::pin(VTimer { slot })
+}
+
+pub type BoxTimer = BoxFuture<'static, ()>;
+
+/// a timer whose deadline is fixed at its first poll (not at creation)
+pub fn new_vtimer_lazy(dur: Duration) -> BoxTimer {
+  Box::pin(async move { new_vtimer(dur).await })
 }
 
 /// install the virtual timer (idempotent, process wide)
